@@ -61,7 +61,7 @@ Section Sem.
     | alts :: r => flat_map (fun a => map (cons a) (product r)) alts
     end.
 
-  (* [fuel] bounds the depth of rule references; length S + 1 is enough for an acyclic schema *)
+  (* [fuel] bounds the depth of rule references; [ref_fuel S] is enough for a schema without cyclic references *)
   Fixpoint expand (fuel : nat) (S : lvsfile) (d : rule) : list flat :=
     match fuel with
     | O => []
@@ -113,7 +113,8 @@ Section Sem.
                 else (r_id d, d) :: labelled k r
     end.
 
-  Definition ref_fuel (S : lvsfile) : nat := Datatypes.S (length S).
+  (* more than the depth of references of any schema without cyclic references *)
+  Definition ref_fuel (S : lvsfile) : nat := 3 + length S.
 
   (* all (label, definition, bindings) under which [n] matches, starting from bindings [e0] *)
   Definition matches_of (S : lvsfile) (e0 : env) (n : list bytes) : list (ident * rule * env) :=
